@@ -554,8 +554,26 @@ class _Idioms(ast.NodeTransformer):
     def _unroll_literal_loops(stmts):
         """for x in ("a", "b"): BODY  ->  BODY[x:="a"]; BODY[x:="b"]   (a literal tuple / list of at most 4 constants, no break / continue / else,
         the body does not assign x)"""
+        def no_continue(body):
+            """`if C: A; continue` followed by REST  ==  `if C: A` else: REST  (top level of a loop body; a trailing `continue` is dropped)"""
+            res = []
+            for i, b in enumerate(body):
+                if isinstance(b, ast.Continue):
+                    return res or [_fix(ast.Pass(), b)]
+                if isinstance(b, ast.If) and not b.orelse and b.body and isinstance(b.body[-1], ast.Continue) \
+                        and not any(isinstance(n, (ast.Continue, ast.Break)) for x in b.body[:-1] for n in ast.walk(x)):
+                    rest = no_continue(body[i + 1:])
+                    res.append(_fix(ast.If(test=b.test, body=b.body[:-1] or [_fix(ast.Pass(), b)], orelse=rest), b))
+                    return res
+                res.append(b)
+            return res
         out = []
         for st in stmts:
+            if isinstance(st, ast.For) and not st.orelse and isinstance(st.iter, (ast.Tuple, ast.List)) and any(isinstance(n, ast.Continue) for b in st.body for n in ast.walk(b)) \
+                    and not any(isinstance(n, (ast.For, ast.AsyncFor, ast.While)) for b in st.body for n in ast.walk(b)):
+                nb_ = no_continue(list(st.body))
+                if not any(isinstance(n, ast.Continue) for b in nb_ for n in ast.walk(b)):
+                    st.body = nb_
             # for a, b in ((X1, Y1), (X2, Y2)): BODY  ->  BODY[a:=X1, b:=Y1]; BODY[a:=X2, b:=Y2]   (names / attribute chains only; the body assigns neither a nor b nor what they read)
             if isinstance(st, ast.For) and not st.orelse and isinstance(st.target, ast.Tuple) and all(isinstance(t, ast.Name) for t in st.target.elts) \
                     and isinstance(st.iter, (ast.Tuple, ast.List)) and 1 <= len(st.iter.elts) <= 4 \
@@ -587,6 +605,47 @@ class _Idioms(ast.NodeTransformer):
                         out.append(nb)
                 continue
             out.append(st)
+        return out
+
+    @staticmethod
+    def _member_flags(stmts):
+        """x = Cls.MEMBER; if x is Cls.OTHER: A else: B   ->   x = Cls.MEMBER; B      (a local just bound to a member of a class, written Cls.UPPER_CASE,
+        compared by is / == / is not / != with a member of the same class written the same way: members of one class with different names are different
+        objects, with the same name the same object; only while x is not rebound, in the same statement list)"""
+        def member(e):
+            if isinstance(e, ast.Attribute) and isinstance(e.value, ast.Name) and e.value.id[:1].isupper() and e.attr.isupper() and isinstance(e.ctx, ast.Load):
+                return (e.value.id, e.attr)
+            return None
+        def decide(test, known):
+            if isinstance(test, ast.Compare) and len(test.ops) == 1 and isinstance(test.ops[0], (ast.Is, ast.IsNot, ast.Eq, ast.NotEq)):
+                a, b = test.left, test.comparators[0]
+                for x, y in ((a, b), (b, a)):
+                    if isinstance(x, ast.Name) and x.id in known and member(y) is not None and member(y)[0] == known[x.id][0]:
+                        same = member(y) == known[x.id]
+                        return same if isinstance(test.ops[0], (ast.Is, ast.Eq)) else not same
+            return None
+        def fold(st, known):
+            if isinstance(st, ast.If):
+                d = decide(st.test, known)
+                if d is True:
+                    return list(st.body)
+                if d is False:
+                    out_ = []
+                    for x in st.orelse:
+                        out_.extend(fold(x, known))
+                    return out_ or [_fix(ast.Pass(), st)]
+            return [st]
+        known = {}
+        out = []
+        for st in stmts:
+            new = fold(st, known) if known else [st]
+            for s2 in new:
+                stores = {n.id for n in ast.walk(s2) if isinstance(n, ast.Name) and isinstance(n.ctx, (ast.Store, ast.Del))}
+                for nm in stores:
+                    known.pop(nm, None)
+                if isinstance(s2, ast.Assign) and len(s2.targets) == 1 and isinstance(s2.targets[0], ast.Name) and member(s2.value) is not None:
+                    known[s2.targets[0].id] = member(s2.value)
+                out.append(s2)
         return out
 
     @staticmethod
@@ -688,6 +747,7 @@ class _Idioms(ast.NodeTransformer):
             hoisted.append(st)
         stmts = self._accumulate_loops(self._unroll_literal_loops(self._split_parallel(hoisted)))
         stmts = self._iterator_loops(stmts)
+        stmts = self._member_flags(stmts)
         out = []
         i = 0
         while i < len(stmts):
